@@ -31,7 +31,7 @@ class ExprMixin:
         if isinstance(e, ast.BoolOp):
             is_and = isinstance(e.op, ast.And)
             acc = []
-            saved = len(st.pc)
+            saved = len(st.guards)
             short = False
             try:
                 for v in e.values:
@@ -43,9 +43,9 @@ class ExprMixin:
                             break
                         continue
                     acc.append(t)
-                    st.pc.append(t if is_and else z3.Not(t))
+                    st.guards.append(t if is_and else z3.Not(t))
             finally:
-                del st.pc[saved:]
+                del st.guards[saved:]
             if short:
                 return not is_and
             if not acc:
